@@ -674,7 +674,8 @@ fn json_of(vals: &[Tok]) -> String {
 
 fn run_serde(r: &mut Run, variant: usize, scenario: &SerdeScenario) {
     r.construct(0, Placement::Inline, variant, Ctor::New);
-    let fields = r.meta.variants[variant].fields.clone();
+    // the encoding follows the declaration order
+    let fields = r.meta.variants[variant].declared.clone();
     let m = r.model[0].clone().unwrap();
     let toks: Vec<Tok> = fields.iter().map(|d| r.expect_val(*d, m.vals[d].unwrap())).collect();
     let n = fields.len();
